@@ -3,7 +3,7 @@ use crate::generic::*;
 
 use core::marker::PhantomData;
 use serde_json::Value;
-use std::collections::HashMap;
+use std::collections::{HashMap, HashSet};
 
 ///The GenericParser is created at compile time by specifying a PASETO version and purpose and
 ///providing a key of the same version and purpose. This structure allows parsing an untrusted token string
@@ -66,6 +66,8 @@ pub struct GenericParser<'a, 'b, Version, Purpose> {
   purpose: PhantomData<Purpose>,
   claims: HashMap<String, Box<dyn erased_serde::Serialize + 'b>>,
   claim_validators: ValidatorMap,
+  /// keys registered through check_claim: their value is compared even when a validator exists for the key
+  checked_claims: HashSet<String>,
   footer: Footer<'a>,
   implicit_assertion: ImplicitAssertion<'a>,
 }
@@ -78,6 +80,7 @@ impl<'a, 'b, Version, Purpose> GenericParser<'a, 'b, Version, Purpose> {
       purpose: PhantomData::<Purpose>,
       claims: HashMap::new(),
       claim_validators: HashMap::new(),
+      checked_claims: HashSet::new(),
       footer: Default::default(),
       implicit_assertion: Default::default(),
     }
@@ -106,7 +109,12 @@ impl<'a, 'b, Version, Purpose> GenericParser<'a, 'b, Version, Purpose> {
 
     //if there's a closure, then store that
     if let Some(closure) = validation_closure {
+      self.checked_claims.remove(&key);
       self.claim_validators.insert(key, Box::new(closure));
+    } else {
+      //no closure: the expected value has to be compared, even if a validator
+      //(e.g. a default exp/nbf validator) is already registered for this key
+      self.checked_claims.insert(key);
     }
     self
   }
@@ -168,28 +176,32 @@ impl<'a, 'b, Version, Purpose> GenericParser<'a, 'b, Version, Purpose> {
         let box_validator = &self.claim_validators[key];
         let validator = box_validator.as_ref();
         validator(key, &json[&key])?;
-      } else {
-        //otherwise, simply verify the claim exists and matches the value passed in
-        if json[&key] == Value::Null {
-          return Err(PasetoClaimError::Missing(key.to_string()).into());
+        //a claim that only accompanies its validator isn't compared, one passed to check_claim is
+        if !self.checked_claims.contains(key) {
+          continue;
         }
+      }
 
-        if raw[&key] != json[&key] {
-          return Err(
-            PasetoClaimError::Invalid(
-              key.to_string(),
-              json[&key]
-                .as_str()
-                .ok_or_else(|| PasetoClaimError::Unexpected(key.to_string()))?
-                .into(),
-              raw[&key]
-                .as_str()
-                .ok_or_else(|| PasetoClaimError::Unexpected(key.to_string()))?
-                .into(),
-            )
-            .into(),
-          );
-        }
+      //verify the claim exists and matches the value passed in
+      if json[&key] == Value::Null {
+        return Err(PasetoClaimError::Missing(key.to_string()).into());
+      }
+
+      if raw[&key] != json[&key] {
+        return Err(
+          PasetoClaimError::Invalid(
+            key.to_string(),
+            json[&key]
+              .as_str()
+              .ok_or_else(|| PasetoClaimError::Unexpected(key.to_string()))?
+              .into(),
+            raw[&key]
+              .as_str()
+              .ok_or_else(|| PasetoClaimError::Unexpected(key.to_string()))?
+              .into(),
+          )
+          .into(),
+        );
       }
     }
 
